@@ -276,8 +276,7 @@ def candidates(p: Procedure, rng: random.Random, configs=(), other_procs=(), lim
                 add("set_window", a.name(), lambda a=a: S.set_window(p, a, True))
             add("set_precision_arg", a.name(), lambda a=a: S.set_precision(p, a, rng.choice(["f32", "f64"])))
     ctl = [a for a in p.args() if isinstance(a._impl._node.type, (T.Size, T.Index, T.Bool))]
-    if ctl:
-        a = rng.choice(ctl)
+    for a in ctl:
         t = a._impl._node.type
         v = (rng.random() < 0.5) if isinstance(t, T.Bool) else rng.randint(1, 4) if isinstance(t, T.Size) else rng.randint(0, 3)
         add("partial_eval", "%s=%s" % (a.name(), v), lambda a=a, v=v: p.partial_eval(**{a.name(): v}))
